@@ -466,6 +466,10 @@ type c14kDry struct {
 	encB  string
 	refA  c14kRestart
 	refB  c14kRestart
+
+	// want holds the numbers of profiles and devices of contents A and B as
+	// the storage delivered them.
+	want map[string][2]int
 }
 
 type c14kRig struct {
@@ -625,6 +629,8 @@ func (g *c14kRig) dryRun(c c14kCase) (d *c14kDry) {
 	if d.refA.Digest == d.refB.Digest || d.refA.Sample == d.refB.Sample || d.encA == d.encB {
 		vrt.Fatalf("contents A and B are not distinguishable: %+v / %+v", d.refA, d.refB)
 	}
+	a, b := c14kContents(c.Content, g.large)
+	d.want = map[string][2]int{"A": {len(a.Profiles), len(a.Devices)}, "B": {len(b.Profiles), len(b.Devices)}}
 	g.dry[c.variant()] = d
 
 	return d
@@ -786,6 +792,14 @@ func (g *c14kRig) runKillOnce(add func(key, format string, args ...any), c c14kC
 	case "load-error":
 		add("store-kill/restart-load-error", "%s, cache file = %s: opening the database logs: %s", at, disk, strings.Join(res.Warns, "; "))
 	case "A", "B":
+		// The references come from the code under test as well (the second
+		// store goes through the storage object that made the first), so
+		// they are compared with the content itself.
+		if w := d.want[served]; res.Profiles != w[0] || res.Devices != w[1] {
+			add("store-kill/restart-content-is-not-the-last-complete-sync",
+				"%s: the restarted database holds %d profiles and %d devices; the %s it was stored from has %d and %d",
+				at, res.Profiles, res.Devices, map[string]string{"A": "first synchronisation", "B": "second synchronisation"}[served], w[0], w[1])
+		}
 		if (disk == "A" || disk == "B") && served != disk {
 			add("store-kill/restart-differs-from-cache-file", "%s: the cache file is the complete content %s but the restarted database answers as content %s",
 				at, disk, served)
